@@ -710,8 +710,9 @@ func replay(bi int, beh []mbt.Step, in *mbt.Input, res *mbt.Result) {
 			w.snap[id] = demandedMap(st, "snap")
 			w.known[id] = true
 			w.ckWait[id] = w.db.Checkpoint(uint64(id))
+			// the save task parks before saving the WAL (or, should the code skip that, before saving the document)
 			arr, err := w.s.Await(func(a *gate.Arrival) bool {
-				return isMain(w, "dkv.ckpt.saveWal")(a) && a.Args[1] == any(uint64(id))
+				return (isMain(w, "dkv.ckpt.saveWal")(a) || isMain(w, "dkv.ckpt.saveDoc")(a)) && a.Args[1] == any(uint64(id))
 			}, wait)
 			if err != nil {
 				machinery(si, err)
@@ -720,6 +721,10 @@ func replay(bi int, beh []mbt.Step, in *mbt.Input, res *mbt.Result) {
 			w.ckArr[id] = arr
 		case "SaveWal":
 			id := st.Int("id")
+			if w.ckArr[id].Point == "dkv.ckpt.saveDoc" {
+				w.skipped++ // the code has no separate WAL save step for this checkpoint
+				break
+			}
 			w.ckArr[id].Release()
 			arr, err := w.s.Await(func(a *gate.Arrival) bool {
 				return isMain(w, "dkv.ckpt.saveDoc")(a) && a.Args[1] == any(uint64(id))
@@ -765,6 +770,35 @@ func replay(bi int, beh []mbt.Step, in *mbt.Input, res *mbt.Result) {
 					What: "after garbage collection the live database lost or changed entries", Expected: want, Observed: g.vals})
 				return
 			}
+		case "RetainFail":
+			ids := []uint64{}
+			top := uint64(0)
+			named := map[int]bool{}
+			for _, i := range st.Ints("ids") {
+				ids = append(ids, uint64(i))
+				top = max(top, uint64(i))
+				named[i] = true
+			}
+			for id := range w.known {
+				if !named[id] && uint64(id) < top {
+					w.dropped[id] = true
+				}
+			}
+			failed := false
+			w.view.FailSave = func(path string) error {
+				if strings.HasSuffix(path, "/checkpoints") && !failed {
+					failed = true
+					return fmt.Errorf("injected storage fault saving %s", path)
+				}
+				return nil
+			}
+			err := w.db.UpdateRetainedCheckpoints(ids)
+			w.view.FailSave = nil
+			if err == nil && failed {
+				fail(&mbt.Violation{Property: "C09", Behaviour: bi, Step: si, What: "UpdateRetainedCheckpoints reported success although saving the checkpoints document failed"})
+				return
+			}
+			res.Count("failed_retention_saves", 1)
 		case "Retain":
 			ids := []uint64{}
 			for _, i := range st.Ints("ids") {
